@@ -2,9 +2,9 @@ package gen
 
 import (
 	stdjson "encoding/json"
-	"fmt"
 	"math/rand"
 	"strings"
+	"unicode/utf16"
 	"unicode/utf8"
 
 	"verif/harness/oracle"
@@ -68,18 +68,37 @@ func quote(s string) string {
 
 // escapeSome spells some characters of s as \uXXXX escapes.
 func escapeSome(r *rand.Rand, s string, all bool) string {
-	var sb strings.Builder
-	sb.WriteByte('"')
+	b := []byte{'"'}
+	u := func(v int) { b = append(b, bs+"u"...); b = hex4(r, b, v) }
 	for _, ch := range s {
-		if ch < 0x10000 && ch != utf8.RuneError && (all || r.Intn(2) == 0) {
-			fmt.Fprintf(&sb, "%su%04x", `\`, ch)
-		} else {
+		if short := strings.IndexRune("\"\\/\b\f\n\r\t", ch); short >= 0 && r.Intn(3) > 0 {
+			// the two-character escape (the only optional one is the solidus)
+			b = append(b, '\\', "\"\\/bfnrt"[short])
+			continue
+		}
+		switch {
+		case ch == utf8.RuneError || !(all || r.Intn(2) == 0):
 			q := quote(string(ch))
-			sb.WriteString(q[1 : len(q)-1])
+			b = append(b, q[1:len(q)-1]...)
+		case ch < 0x10000:
+			u(int(ch))
+		default:
+			hi, lo := utf16.EncodeRune(ch)
+			u(int(hi))
+			u(int(lo))
 		}
 	}
-	sb.WriteByte('"')
-	return sb.String()
+	return string(append(b, '"'))
+}
+
+// escapeExtra is escapeSome plus one \u construct from UEscape (lone halves, range-edge pairs, ...)
+// put in front: the string no longer denotes the same value, which the decode checks do not need.
+func escapeExtra(r *rand.Rand, s string) string {
+	q := escapeSome(r, s, r.Intn(2) == 0)
+	if r.Intn(2) == 0 {
+		return q
+	}
+	return string(UEscape(r, []byte{'"'})) + q[1:]
 }
 
 func swapCase(r *rand.Rand, s string) string {
@@ -144,7 +163,7 @@ func (m *docMut) write(sb *strings.Builder, n *oracle.Node, depth int) {
 			}
 		case "string-escapes":
 			if n.Kind == 's' && n.Str != "" && utf8.ValidString(n.Str) {
-				sb.WriteString(escapeSome(m.r, n.Str, m.r.Intn(2) == 0))
+				sb.WriteString(escapeExtra(m.r, n.Str))
 				m.done = true
 				return
 			}
